@@ -30,4 +30,10 @@ CHECKS = {
         "text": "Seeded random unit-expression trees over all library units, prefixes, magnitudes, powers and roots are reified (type id, dimension and magnitude exponent vectors) in several groupings and spellings; an exact model recomputes every event, checks type identity inside each algebraic equivalence class, equivalence <=> equal (dim, mag), unit_ratio, and that traces are byte-identical across compilers and language levels on a slice.",
         "note": "Trusted: vf/model.py (exact exponent arithmetic), the reifier reading detail::DimT/MagT packs, leaf (dim, mag) taken from the library itself. Bounded tree depth; documented ordering exclusion filtered.",
     },
+    "C13": {
+        "module": ("vf.props.c13", "C13"), "engine": "planeA+planeC",
+        "technique": "runtime monitoring: differential execution of Quantity operators vs raw operators on laundered operands (UBSan trap attribution), bit-pattern round trips, reified layout facts; compile-outcome probes per operator/rep/configuration",
+        "text": "Layout facts are read out at run time for every library unit and generated compound units x 11 reps; every same-unit operator is executed on exhaustive 8-bit operand pairs and boundary/random wider operands and compared (value and result rep) with the raw operator in the same TU; in(unit) round trips are compared bit-for-bit over float/double/long double/int patterns; each operator is also compiled on each rep under several compiler/standard configurations with the raw operator as control.",
+        "note": "Trusted: the raw C++ operators as reference, the 128-bit raw-UB oracle, gcc/clang diagnostics parsing for the probe half (re-checked in isolation).",
+    },
 }
